@@ -40,8 +40,18 @@ Proof.
       replace (N.to_nat (k - s)) with (S (N.to_nat (k - N.succ s))) by lia. reflexivity.
 Qed.
 
+Lemma scan_bits_length k : forall w mask, (length (scan_bits k w mask) <= k)%nat.
+Proof.
+  induction k as [|k IH]; intros w mask; cbn [scan_bits]; [apply le_n|].
+  destruct (negb (N.eqb (N.land w mask) 0)); cbn [length]; specialize (IH (N.double w) mask); lia.
+Qed.
+
 Lemma nth_bit_spec mask i : nth_bit mask i = IOk (nth_error (scan64 mask) (N.to_nat i)).
-Proof. unfold nth_bit. rewrite bits_iter_list_spec. reflexivity. Qed.
+Proof.
+  unfold nth_bit. rewrite bits_iter_list_spec. destruct (N.ltb_spec i 64) as [L|L]; [reflexivity|].
+  f_equal. symmetry. apply nth_error_None. unfold scan64.
+  assert (H := scan_bits_length 64 1 mask). lia.
+Qed.
 
 Lemma resolve_qubit_spec regs alias idx missing b :
   resolve regs (Qubit alias idx) missing = IOk b ->
